@@ -48,6 +48,11 @@ ASSUMPTIONS = [
 ]
 
 POOL = [
+    # strings that end in a dash and carry units, in statements that have to be wrapped
+    # (where a line may end between a value and its units)
+    "FOXES = (\"alpha-\" <m>, \"bravo-\" <m>, \"charlie-\" <m>, \"delta-\" <m>, \"echo-\" <m>, \"foxtrots-\" <m>, \"golf-\" <m>, \"hotel-\" <m>, \"india-\" <m>, \"juliet-\" <m>)\n"
+    "TAIL = \"a-rather-long-word-that-ends-in-a-dash-and-fills-most-of-the-line-by-itself-\" <km>\n"
+    "MORE = (\"x-\" <m>, \"yy-\" <m>, \"zzz-\" <m>, \"wwww-\" <m>, \"vvvvv-\" <m>, \"uuuuuu-\" <m>, \"ttttttt-\" <m>, \"ssssssss-\" <m>, \"rrrrrrrrr-\" <m>)\n",
     # strings that hold the other quote character: short, longer than half a line,
     # longer than a line, with a control character, as a sequence element
     "NOTE = 'The \"raw\" counts are stored as 16-bit integers in this file'\n"
